@@ -120,6 +120,9 @@ func ruleC03(w *World, r *Report) {
 	// an acknowledgement (also the relay chain's error acknowledgement) is written only after the
 	// keeper verified the packet (shared with C01)
 	k.msgRecvRule("C03.recv")
+	// a packet the relay chain answered with an error acknowledgement is not also forwarded
+	// (its later acknowledgement would overwrite the relay chain's record) (shared with C11)
+	k.relayAuthRule("C03.relay")
 	r.MinInstances("C03.", 50)
 }
 
